@@ -5,6 +5,7 @@ package main
 // value it knows (the expression is built FROM the target value), so the evaluated description stays the tree.
 
 import (
+	"encoding/hex"
 	"fmt"
 	"math/rand"
 	"regexp"
@@ -14,13 +15,64 @@ import (
 	"unicode/utf8"
 )
 
+// hx: an HCL expression as text and as the encoded syntax tree handed to the Lean model
+// (tree.go grammar extended by  L<hexname>.  local.name,  T[e*]  template,  F<hexname>.[e*]  function call)
+type hx struct {
+	txt string
+	enc string
+}
+
+type localDef struct {
+	name string
+	e    hx
+}
+
+// locals blocks, in file order: pre (decoy definitions that a later block redefines), base, derive (may reference
+// base), post (late redefinitions of base locals that are only used through a derived local)
+const (
+	stPre = iota
+	stBase
+	stDerive
+	stPost
+	nStages
+)
+
 type hclPrinter struct {
 	r      *rand.Rand
 	fancy  int // 0 = literals only; otherwise percentage of values spelled indirectly
-	base   []string // locals of the first block: "name = expr"
-	derive []string // locals of the second block (may reference the first)
+	blocks [nStages][]localDef
 	nloc   int
+	redef  int // number of redefinitions of a local in another block
 	usedFn map[string]bool
+}
+
+func encStr(s string) string { return "s" + hex.EncodeToString([]byte(s)) + "." }
+func encInt(i int64) string  { return "i" + strconv.FormatInt(i, 10) + "." }
+func encBool(b bool) string {
+	if b {
+		return "t"
+	}
+	return "f"
+}
+func encLocal(name string) string { return "L" + hex.EncodeToString([]byte(name)) + "." }
+func encCall(fn string, args ...hx) string {
+	var b strings.Builder
+	b.WriteString("F" + hex.EncodeToString([]byte(fn)) + ".[")
+	for _, a := range args {
+		b.WriteString(a.enc)
+	}
+	b.WriteString("]")
+	return b.String()
+}
+
+func qs(s string) hx { return hx{hclQuote(s), encStr(s)} }
+
+func call(fn string, args ...hx) hx {
+	parts := make([]string, len(args))
+	for i, a := range args {
+		parts[i] = a.txt
+	}
+	return hx{fn + "(" + strings.Join(parts, ", ") + ")", encCall(fn, args...)}
 }
 
 func hclQuote(s string) string {
@@ -89,15 +141,31 @@ func heredoc(s string) string {
 	return "<<EOT\n" + s + "EOT"
 }
 
-func (p *hclPrinter) newLocal(prefix, expr string, derived bool) string {
+// newLocal defines `name = e` in the locals block of `stage` and returns the reference and the name.  decoy is an
+// expression of the same type with a DIFFERENT value: with some probability the name is ALSO defined, as the decoy, in
+// an EARLIER block — the later (real) definition must win (config/hcl.go decodeLocals: mergeMaps(vars, newVars)).
+func (p *hclPrinter) newLocal(prefix string, e, decoy hx, stage int) (hx, string) {
 	p.nloc++
 	name := fmt.Sprintf("%s%d", prefix, p.nloc)
-	if derived {
-		p.derive = append(p.derive, name+" = "+expr)
-	} else {
-		p.base = append(p.base, name+" = "+expr)
+	p.blocks[stage] = append(p.blocks[stage], localDef{name, e})
+	if decoy.txt != "" && p.r.Intn(100) < 35 {
+		early := stPre
+		if stage == stDerive && p.r.Intn(2) == 0 {
+			early = stBase
+		}
+		p.blocks[early] = append(p.blocks[early], localDef{name, decoy})
+		p.redef++
 	}
-	return "local." + name
+	return hx{"local." + name, encLocal(name)}, name
+}
+
+// lateRedef: the base local `name` is used ONLY through a derived local (evaluated when its block is decoded): a block
+// after the derived one may redefine the name without changing the description
+func (p *hclPrinter) lateRedef(name string, decoy hx) {
+	if p.r.Intn(100) < 40 {
+		p.blocks[stPost] = append(p.blocks[stPost], localDef{name, decoy})
+		p.redef++
+	}
 }
 
 func (p *hclPrinter) roll() bool { return p.fancy > 0 && p.r.Intn(100) < p.fancy }
@@ -106,71 +174,147 @@ func (p *hclPrinter) fn(name string) { p.usedFn[name] = true }
 
 // ---- strings
 
-func (p *hclPrinter) strLit(s string, allowHeredoc bool) string {
+func (p *hclPrinter) strLit(s string, allowHeredoc bool) hx {
 	if allowHeredoc && heredocOK(s) && p.r.Intn(2) == 0 {
-		return heredoc(s)
+		return hx{heredoc(s), encStr(s)}
 	}
-	return hclQuote(s)
+	return qs(s)
 }
 
+func decoyStr(s string) hx { return qs(s + "#decoy") }
+
 // strExpr: an HCL expression whose value is s.  inline: the expression is nested in another one (no heredoc).
-func (p *hclPrinter) strExpr(s string, inline bool) string {
+func (p *hclPrinter) strExpr(s string, inline bool) hx {
 	if !p.roll() {
 		return p.strLit(s, !inline)
 	}
-	switch p.r.Intn(6) {
+	switch p.r.Intn(7) {
 	case 0:
-		return p.newLocal("s", hclQuote(s), false)
+		l, _ := p.newLocal("s", qs(s), decoyStr(s), stBase)
+		return l
 	case 1:
-		// interpolation of a local into a template
+		// interpolation of a local into a template: "${local.a}rest" or "begin${local.b}"
 		rs := []rune(s)
 		if len(rs) >= 2 {
 			cut := 1 + p.r.Intn(len(rs)-1)
 			a, b := string(rs[:cut]), string(rs[cut:])
 			if !strings.HasSuffix(a, "$") && !strings.HasSuffix(a, "%") {
-				l := p.newLocal("s", hclQuote(a), false)
-				q := hclQuote(b)
-				return `"${` + l + `}` + q[1:]
+				if p.r.Intn(2) == 0 {
+					l, _ := p.newLocal("s", qs(a), decoyStr(a), stBase)
+					q := hclQuote(b)
+					return hx{`"${` + l.txt + `}` + q[1:], "T[" + l.enc + encStr(b) + "]"}
+				}
+				l, _ := p.newLocal("s", qs(b), decoyStr(b), stBase)
+				q := hclQuote(a)
+				return hx{q[:len(q)-1] + `${` + l.txt + `}"`, "T[" + encStr(a) + l.enc + "]"}
 			}
 		}
-		return hclQuote(s)
+		return qs(s)
 	case 2:
+		// element wraps around: index 1, 4, 7 of a 3-tuple is its second member
 		p.fn("element")
-		return fmt.Sprintf("element([%s, %s, %s], 1)", hclQuote("x"), hclQuote(s), hclQuote("y"))
+		idx := int64(1 + 3*p.r.Intn(3))
+		return call("element", tuple(qs("x"), qs(s), qs("y")), hx{strconv.FormatInt(idx, 10), encInt(idx)})
 	case 3:
 		p.fn("lookup")
-		return fmt.Sprintf("lookup({ k = %s, j = %s }, %s, %s)", hclQuote(s), hclQuote("no"), hclQuote("k"), hclQuote("dflt"))
+		if p.r.Intn(3) == 0 {
+			// the key is missing: the default is the value
+			return call("lookup", object(kvx{"j", qs("no")}), qs("k"), qs(s))
+		}
+		return call("lookup", object(kvx{"k", qs(s)}, kvx{"j", qs("no")}), qs("k"), qs("dflt"))
 	case 4:
 		if p.r.Intn(2) == 0 {
 			// stdlib index = element access
 			p.fn("index")
-			return fmt.Sprintf("index([%s, %s], 1)", hclQuote("x"), hclQuote(s))
+			return call("index", tuple(qs("x"), qs(s)), hx{"1", encInt(1)})
 		}
 		p.fn("coalesce")
-		return fmt.Sprintf("coalesce(%s, %s)", hclQuote(s), hclQuote("other"))
+		return call("coalesce", qs(s), qs("other"))
+	case 5:
+		// a local defined from another local (previous block)
+		l, name := p.newLocal("s", qs(s), decoyStr(s), stBase)
+		d, _ := p.newLocal("d", l, decoyStr(s), stDerive)
+		p.lateRedef(name, qs(s+"#late"))
+		return d
 	default:
-		// a local defined from another local
-		l := p.newLocal("s", hclQuote(s), false)
-		return p.newLocal("d", l, true)
+		// a derived local that interpolates a base local
+		rs := []rune(s)
+		if len(rs) >= 2 {
+			cut := 1 + p.r.Intn(len(rs)-1)
+			a, b := string(rs[:cut]), string(rs[cut:])
+			if !strings.HasSuffix(a, "$") && !strings.HasSuffix(a, "%") {
+				l, name := p.newLocal("s", qs(b), decoyStr(b), stBase)
+				q := hclQuote(a)
+				d, _ := p.newLocal("d", hx{q[:len(q)-1] + `${` + l.txt + `}"`, "T[" + encStr(a) + l.enc + "]"}, decoyStr(s), stDerive)
+				p.lateRedef(name, qs(b+"#late"))
+				return d
+			}
+		}
+		return qs(s)
 	}
+}
+
+// ---- tuples and objects of expressions
+
+type kvx struct {
+	k string
+	v hx
+}
+
+func tuple(xs ...hx) hx {
+	parts := make([]string, len(xs))
+	var enc strings.Builder
+	enc.WriteString("[")
+	for i, x := range xs {
+		parts[i] = x.txt
+		enc.WriteString(x.enc)
+	}
+	enc.WriteString("]")
+	return hx{"[" + strings.Join(parts, ", ") + "]", enc.String()}
+}
+
+func encObject(kvs []kvx) string {
+	var enc strings.Builder
+	enc.WriteString("{")
+	for _, kv := range kvs {
+		enc.WriteString("k" + hex.EncodeToString([]byte(kv.k)) + "." + kv.v.enc)
+	}
+	enc.WriteString("}")
+	return enc.String()
+}
+
+// object: single-line object constructor with bare / quoted keys
+func object(kvs ...kvx) hx {
+	if len(kvs) == 0 {
+		return hx{"{}", "{}"}
+	}
+	parts := make([]string, len(kvs))
+	for i, kv := range kvs {
+		k := kv.k
+		if !identRe.MatchString(k) || k == "true" || k == "false" || k == "null" {
+			k = hclQuote(k)
+		}
+		parts[i] = k + " = " + kv.v.txt
+	}
+	return hx{"{ " + strings.Join(parts, ", ") + " }", encObject(kvs)}
 }
 
 // ---- lists of strings
 
-func (p *hclPrinter) listLit(ss []string) string {
-	parts := make([]string, len(ss))
+func (p *hclPrinter) listLit(ss []string) hx {
+	parts := make([]hx, len(ss))
 	for i, s := range ss {
 		parts[i] = p.strExpr(s, true)
 	}
-	return "[" + strings.Join(parts, ", ") + "]"
+	return tuple(parts...)
 }
 
-func plainList(ss []string) string {
-	parts := make([]string, len(ss))
+func plainList(ss []string) hx {
+	parts := make([]hx, len(ss))
 	for i, s := range ss {
-		parts[i] = hclQuote(s)
+		parts[i] = qs(s)
 	}
-	return "[" + strings.Join(parts, ", ") + "]"
+	return tuple(parts...)
 }
 
 func hasDup(ss []string) bool {
@@ -193,22 +337,25 @@ func contains(ss []string, x string) bool {
 	return false
 }
 
-func (p *hclPrinter) listExpr(ss []string) string {
+func intLit(i int) hx { return hx{strconv.Itoa(i), encInt(int64(i))} }
+
+func (p *hclPrinter) listExpr(ss []string) hx {
 	if !p.roll() || len(ss) == 0 {
 		return p.listLit(ss)
 	}
-	switch p.r.Intn(11) {
+	decoy := plainList([]string{"decoy"})
+	switch p.r.Intn(12) {
 	case 0:
 		p.fn("concat")
 		cut := p.r.Intn(len(ss) + 1)
-		return fmt.Sprintf("concat(%s, %s)", plainList(ss[:cut]), plainList(ss[cut:]))
+		return call("concat", plainList(ss[:cut]), plainList(ss[cut:]))
 	case 1:
 		p.fn("reverse")
 		rev := make([]string, len(ss))
 		for i, s := range ss {
 			rev[len(ss)-1-i] = s
 		}
-		return "reverse(" + plainList(rev) + ")"
+		return call("reverse", plainList(rev))
 	case 2:
 		ok := true
 		for _, s := range ss {
@@ -218,7 +365,7 @@ func (p *hclPrinter) listExpr(ss []string) string {
 		}
 		if ok {
 			p.fn("split")
-			return fmt.Sprintf("split(%s, %s)", hclQuote(","), hclQuote(strings.Join(ss, ",")))
+			return call("split", qs(","), qs(strings.Join(ss, ",")))
 		}
 	case 3:
 		if !contains(ss, "") {
@@ -231,90 +378,117 @@ func (p *hclPrinter) listExpr(ss []string) string {
 				in = append(in, s)
 			}
 			in = append(in, "")
-			return "compact(" + plainList(in) + ")"
+			return call("compact", plainList(in))
 		}
 	case 4:
 		if !hasDup(ss) {
 			p.fn("distinct")
 			in := append([]string{}, ss...)
 			in = append(in, ss[p.r.Intn(len(ss))], ss[0])
-			return "distinct(" + plainList(in) + ")"
+			return call("distinct", plainList(in))
 		}
 	case 5:
 		p.fn("flatten")
 		cut := p.r.Intn(len(ss) + 1)
-		return fmt.Sprintf("flatten([%s, [%s]])", plainList(ss[:cut]), plainList(ss[cut:]))
+		return call("flatten", tuple(plainList(ss[:cut]), tuple(plainList(ss[cut:]))))
 	case 6:
 		p.fn("slice")
 		in := append([]string{"pre"}, ss...)
 		in = append(in, "post", "post2")
-		return fmt.Sprintf("slice(%s, 1, %d)", plainList(in), 1+len(ss))
+		return call("slice", plainList(in), intLit(1), intLit(1+len(ss)))
 	case 7:
 		if sort.StringsAreSorted(ss) {
 			p.fn("sort")
 			perm := append([]string{}, ss...)
 			p.r.Shuffle(len(perm), func(i, j int) { perm[i], perm[j] = perm[j], perm[i] })
-			return "sort(" + plainList(perm) + ")"
+			return call("sort", plainList(perm))
 		}
 	case 8:
 		if sort.StringsAreSorted(ss) && !hasDup(ss) {
 			p.fn("keys")
-			var kv []string
+			var kv []kvx
 			for _, s := range ss {
-				kv = append(kv, hclQuote(s)+" = "+hclQuote("v"))
+				kv = append(kv, kvx{s, qs("v")})
 			}
 			p.r.Shuffle(len(kv), func(i, j int) { kv[i], kv[j] = kv[j], kv[i] })
-			return "keys({ " + strings.Join(kv, ", ") + " })"
+			return call("keys", quotedObject(kv))
 		}
 	case 9:
 		p.fn("values")
-		var kv []string
+		var kv []kvx
 		for i, s := range ss {
-			kv = append(kv, fmt.Sprintf("k%03d = %s", i, hclQuote(s)))
+			kv = append(kv, kvx{fmt.Sprintf("k%03d", i), qs(s)})
 		}
 		p.r.Shuffle(len(kv), func(i, j int) { kv[i], kv[j] = kv[j], kv[i] })
-		return "values({ " + strings.Join(kv, ", ") + " })"
+		return call("values", object(kv...))
 	case 10:
 		if p.r.Intn(2) == 0 {
 			p.fn("coalescelist")
-			return "coalescelist([], " + plainList(ss) + ")"
+			return call("coalescelist", tuple(), plainList(ss))
 		}
-		return p.newLocal("l", plainList(ss), false)
+		l, _ := p.newLocal("l", plainList(ss), decoy, stBase)
+		return l
+	case 11:
+		// a derived local that concatenates a base local with a literal tuple
+		p.fn("concat")
+		cut := p.r.Intn(len(ss) + 1)
+		l, name := p.newLocal("l", plainList(ss[:cut]), decoy, stBase)
+		d, _ := p.newLocal("dl", call("concat", l, plainList(ss[cut:])), decoy, stDerive)
+		p.lateRedef(name, plainList([]string{"late"}))
+		return d
 	}
 	return p.listLit(ss)
 }
 
+// quotedObject: object constructor whose keys are all quoted
+func quotedObject(kvs []kvx) hx {
+	if len(kvs) == 0 {
+		return hx{"{}", "{}"}
+	}
+	parts := make([]string, len(kvs))
+	for i, kv := range kvs {
+		parts[i] = hclQuote(kv.k) + " = " + kv.v.txt
+	}
+	return hx{"{ " + strings.Join(parts, ", ") + " }", encObject(kvs)}
+}
+
 // ---- maps of strings
 
-func (p *hclPrinter) mapLit(m []KV, multiline bool, ind string) string {
+func (p *hclPrinter) mapLit(m []KV, multiline bool, ind string) hx {
 	if len(m) == 0 {
-		return "{}"
+		return hx{"{}", "{}"}
 	}
 	parts := make([]string, len(m))
+	kvs := make([]kvx, len(m))
 	for i, kv := range m {
-		parts[i] = hclKey(p.r, kv.K) + " = " + p.strExpr(kv.V.S, true)
+		v := p.strExpr(kv.V.S, true)
+		parts[i] = hclKey(p.r, kv.K) + " = " + v.txt
+		kvs[i] = kvx{kv.K, v}
 	}
 	if multiline {
-		return "{\n" + ind + "  " + strings.Join(parts, "\n"+ind+"  ") + "\n" + ind + "}"
+		return hx{"{\n" + ind + "  " + strings.Join(parts, "\n"+ind+"  ") + "\n" + ind + "}", encObject(kvs)}
 	}
-	return "{ " + strings.Join(parts, ", ") + " }"
+	return hx{"{ " + strings.Join(parts, ", ") + " }", encObject(kvs)}
 }
 
-func plainMap(r *rand.Rand, m []KV) string {
+func plainMap(r *rand.Rand, m []KV) hx {
 	if len(m) == 0 {
-		return "{}"
+		return hx{"{}", "{}"}
 	}
 	parts := make([]string, len(m))
+	kvs := make([]kvx, len(m))
 	for i, kv := range m {
 		parts[i] = hclKey(r, kv.K) + " = " + hclQuote(kv.V.S)
+		kvs[i] = kvx{kv.K, qs(kv.V.S)}
 	}
-	return "{ " + strings.Join(parts, ", ") + " }"
+	return hx{"{ " + strings.Join(parts, ", ") + " }", encObject(kvs)}
 }
 
-func (p *hclPrinter) mapExpr(m []KV, ind string) string {
+func (p *hclPrinter) mapExpr(m []KV, ind string) hx {
 	if !p.roll() || len(m) == 0 {
 		return p.mapLit(m, p.r.Intn(2) == 0, ind)
 	}
+	decoy := object(kvx{"decoy", qs("1")})
 	switch p.r.Intn(5) {
 	case 0:
 		// merge of two object literals; the second overrides a key of the first
@@ -325,13 +499,13 @@ func (p *hclPrinter) mapExpr(m []KV, ind string) string {
 		if len(b) > 0 {
 			a = append(a, KV{b[0].K, nStr("overridden")})
 		}
-		return fmt.Sprintf("merge(%s, %s)", plainMap(p.r, a), plainMap(p.r, b))
+		return call("merge", plainMap(p.r, a), plainMap(p.r, b))
 	case 1:
 		// the documented idiom: merge(local.common, {...})
 		p.fn("merge")
 		cut := p.r.Intn(len(m) + 1)
-		l := p.newLocal("m", plainMap(p.r, m[:cut]), false)
-		return fmt.Sprintf("merge(%s, %s)", l, plainMap(p.r, m[cut:]))
+		l, _ := p.newLocal("m", plainMap(p.r, m[:cut]), decoy, stBase)
+		return call("merge", l, plainMap(p.r, m[cut:]))
 	case 2:
 		p.fn("zipmap")
 		var ks, vs []string
@@ -339,37 +513,44 @@ func (p *hclPrinter) mapExpr(m []KV, ind string) string {
 			ks = append(ks, kv.K)
 			vs = append(vs, kv.V.S)
 		}
-		return fmt.Sprintf("zipmap(%s, %s)", plainList(ks), plainList(vs))
+		return call("zipmap", plainList(ks), plainList(vs))
 	case 3:
-		return p.newLocal("m", plainMap(p.r, m), false)
+		l, _ := p.newLocal("m", plainMap(p.r, m), decoy, stBase)
+		return l
 	default:
 		// a local merged from a local of the previous block
 		p.fn("merge")
 		cut := p.r.Intn(len(m) + 1)
-		l := p.newLocal("m", plainMap(p.r, m[:cut]), false)
-		return p.newLocal("dm", fmt.Sprintf("merge(%s, %s)", l, plainMap(p.r, m[cut:])), true)
+		l, name := p.newLocal("m", plainMap(p.r, m[:cut]), decoy, stBase)
+		d, _ := p.newLocal("dm", call("merge", l, plainMap(p.r, m[cut:])), decoy, stDerive)
+		p.lateRedef(name, object(kvx{"late", qs("1")}))
+		return d
 	}
 }
 
 // ---- numbers and booleans
 
-func (p *hclPrinter) intExpr(i int64) string {
+func (p *hclPrinter) intExpr(i int64) hx {
+	lit := hx{strconv.FormatInt(i, 10), encInt(i)}
 	if !p.roll() {
-		return strconv.FormatInt(i, 10)
+		return lit
 	}
-	return p.newLocal("n", strconv.FormatInt(i, 10), false)
+	l, _ := p.newLocal("n", lit, hx{strconv.FormatInt(i+1, 10), encInt(i + 1)}, stBase)
+	return l
 }
 
-func (p *hclPrinter) boolExpr(b bool) string {
+func (p *hclPrinter) boolExpr(b bool) hx {
+	lit := hx{strconv.FormatBool(b), encBool(b)}
 	if !p.roll() {
-		return strconv.FormatBool(b)
+		return lit
 	}
-	return p.newLocal("b", strconv.FormatBool(b), false)
+	l, _ := p.newLocal("b", lit, hx{strconv.FormatBool(!b), encBool(!b)}, stBase)
+	return l
 }
 
 // ---- bodies
 
-func (p *hclPrinter) attrExpr(f fspec, v *Node, ind string) string {
+func (p *hclPrinter) attrExpr(f fspec, v *Node, ind string) hx {
 	switch f.ty {
 	case tStr:
 		return p.strExpr(v.S, false)
@@ -389,7 +570,8 @@ func (p *hclPrinter) attrExpr(f fspec, v *Node, ind string) string {
 	panic("attrExpr: bad type")
 }
 
-func (p *hclPrinter) block(b *strings.Builder, name, st string, n *Node, ind string) {
+// block prints one block and returns the encoding of its body (labels included as literal entries)
+func (p *hclPrinter) block(b *strings.Builder, name, st string, n *Node, ind string) string {
 	b.WriteString(ind + name)
 	for _, f := range schema[st] {
 		if f.kind == kLabel {
@@ -399,60 +581,101 @@ func (p *hclPrinter) block(b *strings.Builder, name, st string, n *Node, ind str
 		}
 	}
 	b.WriteString(" {\n")
-	p.body(b, st, n, ind+"  ")
+	enc := p.body(b, st, n, ind+"  ")
 	b.WriteString(ind + "}\n")
+	return enc
 }
 
-func (p *hclPrinter) body(b *strings.Builder, st string, n *Node, ind string) {
+// body prints the attributes and nested blocks of a struct; the returned encoding mirrors the node (same keys, same
+// order) with expressions at the leaves
+func (p *hclPrinter) body(b *strings.Builder, st string, n *Node, ind string) string {
+	var enc strings.Builder
+	enc.WriteString("{")
 	for _, kv := range n.M {
 		f, ok := specOf(st, kv.K)
 		if !ok {
 			panic("unknown field " + st + "." + kv.K)
 		}
+		enc.WriteString("k" + hex.EncodeToString([]byte(kv.K)) + ".")
 		if kv.V.K == 'n' {
+			enc.WriteString("n")
 			continue
 		}
 		switch f.kind {
 		case kLabel:
+			kv.V.encode(&enc)
 		case kAttr:
-			b.WriteString(ind + f.name + " = " + p.attrExpr(f, kv.V, ind) + "\n")
+			e := p.attrExpr(f, kv.V, ind)
+			b.WriteString(ind + f.name + " = " + e.txt + "\n")
+			enc.WriteString(e.enc)
 		case kBlock:
-			p.block(b, f.name, f.sub, kv.V, ind)
+			enc.WriteString(p.block(b, f.name, f.sub, kv.V, ind))
 		case kBlocks:
+			enc.WriteString("[")
 			for _, x := range kv.V.L {
-				p.block(b, f.name, f.sub, x, ind)
+				enc.WriteString(p.block(b, f.name, f.sub, x, ind))
 			}
+			enc.WriteString("]")
 		}
 	}
+	enc.WriteString("}")
+	return enc.String()
 }
 
-func printHCL(d *Node, r *rand.Rand, fancy int) (string, []string) {
+// hclFile: the printed file, the functions it uses, the number of locals redefined in another block, and the encoded
+// syntax tree: lb = the locals blocks in file order, hb = the body
+type hclFile struct {
+	text  string
+	fns   []string
+	redef int
+	lb    string
+	hb    string
+}
+
+func printHCL(d *Node, r *rand.Rand, fancy int) hclFile {
 	p := &hclPrinter{r: r, fancy: fancy, usedFn: map[string]bool{}}
 	var main strings.Builder
-	p.body(&main, "ammo", d, "")
-	var out strings.Builder
-	loc := func(xs []string) string {
-		if len(xs) == 0 {
-			return ""
+	hb := p.body(&main, "ammo", d, "")
+	var texts []string
+	var lb strings.Builder
+	lb.WriteString("[")
+	nlocals := 0
+	for _, defs := range p.blocks {
+		if len(defs) == 0 {
+			continue
 		}
-		return "locals {\n  " + strings.Join(xs, "\n  ") + "\n}\n"
+		nlocals += len(defs)
+		var t strings.Builder
+		t.WriteString("locals {\n")
+		lb.WriteString("{")
+		for _, d := range defs {
+			t.WriteString("  " + d.name + " = " + d.e.txt + "\n")
+			lb.WriteString("k" + hex.EncodeToString([]byte(d.name)) + "." + d.e.enc)
+		}
+		t.WriteString("}\n")
+		lb.WriteString("}")
+		texts = append(texts, t.String())
 	}
-	// locals blocks are evaluated in source order; where the block sits relative to its uses does not matter
-	switch r.Intn(3) {
-	case 0:
-		out.WriteString(loc(p.base) + loc(p.derive) + main.String())
-	case 1:
-		out.WriteString(loc(p.base) + main.String() + loc(p.derive))
-	default:
-		out.WriteString(main.String() + loc(p.base) + loc(p.derive))
+	lb.WriteString("]")
+	// locals blocks are evaluated in source order; where they sit relative to their uses does not matter
+	at := r.Intn(len(texts) + 1)
+	var out strings.Builder
+	for i, t := range texts {
+		if i == at {
+			out.WriteString(main.String())
+		}
+		out.WriteString(t)
+	}
+	if at == len(texts) {
+		out.WriteString(main.String())
 	}
 	var fns []string
 	for f := range p.usedFn {
 		fns = append(fns, f)
 	}
-	if len(p.base)+len(p.derive) > 0 {
+	if nlocals > 0 {
 		fns = append(fns, "locals")
 	}
 	sort.Strings(fns)
-	return out.String(), fns
+	return hclFile{text: out.String(), fns: fns, redef: p.redef, lb: lb.String(), hb: hb}
 }
